@@ -14,6 +14,7 @@ what is assumed about them is a hypothesis of the theorem that uses them, and ea
 hypothesis is checked on the values the real code returns by the correspondence.
 -/
 import SharkVerif.Lemmas.LinReg
+import SharkVerif.Lemmas.LinRegExists
 import SharkVerif.Lemmas.Stats
 import SharkVerif.Lemmas.Linear
 import SharkVerif.Lemmas.LDA
@@ -419,18 +420,26 @@ def SolverSpec (solve : Solver) : Prop :=
   ∀ n k A R, (∃ X : Nat → Nat → Rat, ∀ i, i < n → ∀ c, c < k → matMul n A X i c = R i c) →
     ∀ i, i < n → ∀ c, c < k → matMul n A (solve n k A R) i c = R i c
 
+/-- **The normal equations are always solvable** (every dataset — rank-deficient, constant
+features, `d > n`, even empty —, every batch partition, every `λ ≥ 0`, every label dimension):
+the right-hand side `XᵀL` lies in the range of `A = (X|1)ᵀ(X|1) + λ·diag(1,…,1,0)`.  So the
+consistency premise of the semi-definite solver's specification is met by construction. -/
+theorem linreg_system_consistent (bs : LData) (d k : Nat) (lam : Rat) (hlam : 0 ≤ lam) :
+    ∃ X : Nat → Nat → Rat, ∀ i, i < d + 1 → ∀ c, c < k →
+      matMul (d + 1) (linregA bs d lam) X i c = linregRhs bs d i c :=
+  normalEq_solvable bs d k lam hlam
+
 /-- **The trained model is optimal** (all `n`, `d`, `k`, batch partitions, `λ ≥ 0`): if the
-solver meets its specification and the accumulated system is solvable, the parameters
-returned by `LinearRegression::train` make the gradient vanish in every output column
-and minimise the total regularised squared error over all parameter matrices. -/
+solver meets its specification (`SolverSpec`: it returns a solution whenever one exists), the
+parameters returned by `LinearRegression::train` make the gradient vanish in every output
+column and minimise the total regularised squared error over all parameter matrices. -/
 theorem linreg_train_optimal (solve : Solver) (hs : SolverSpec solve) (bs : LData) (d k : Nat) (lam : Rat)
-    (hlam : 0 ≤ lam)
-    (hcons : ∃ X : Nat → Nat → Rat, ∀ i, i < d + 1 → ∀ c, c < k →
-      matMul (d + 1) (linregA bs d lam) X i c = linregRhs bs d i c) :
+    (hlam : 0 ≤ lam) :
     let B := linregTrain solve bs d k lam
     (∀ c, c < k → ∀ i, i ≤ d → linregGradient bs d lam c (fun j => B j c) i = 0)
     ∧ ∀ B' : Nat → Nat → Rat, linregObjectiveAll bs d k lam B ≤ linregObjectiveAll bs d k lam B' := by
   intro B
+  have hcons := normalEq_solvable bs d k lam hlam
   have hB : ∀ c, c < k → NormalEq bs d lam c (fun j => B j c) := by
     intro c hc i hi
     exact hs (d + 1) k _ _ hcons i (by omega) c hc
@@ -443,6 +452,16 @@ theorem linreg_train_optimal (solve : Solver) (hs : SolverSpec solve) (bs : LDat
   have h2 := rsum_nonneg this
   rw [rsum_sub] at h2
   linarith
+
+/-- non-vacuity of `SolverSpec`: a solver meeting the specification exists -/
+example : ∃ solve : Solver, SolverSpec solve := by
+  classical
+  refine ⟨fun n k A R =>
+    if h : ∃ X : Nat → Nat → Rat, ∀ i, i < n → ∀ c, c < k → matMul n A X i c = R i c
+    then Classical.choose h else fun _ _ => 0, ?_⟩
+  intro n k A R h
+  simp only [h, dite_true]
+  exact Classical.choose_spec h
 
 /-- the accumulated system does not depend on the batch partition, hence neither does
 the trained model (for any solver, as a function of the system) -/
